@@ -663,7 +663,9 @@ fn run_case(property: &str, seed: u64, idx: u64, thorough: bool) -> (Option<Devi
             let mut cfg0 = |r: &mut Rng, _ks: u8| -> u32 { r.below(4096) as u32 & !(1 << 9) & !(1 << 10) };
             for i in 0..rng.range(3, 40) {
                 let op = gen.next(&cx.ex.model, &mut cfg0);
-                if matches!(op, Op::Reopen { .. }) {
+                // no bulk ingestion before the reopen: an ingested tombstone over a journaled key followed by a
+                // reopen is known finding F3 (a C04 matter), which would only blur the frozen-view oracle here
+                if matches!(op, Op::Reopen { .. } | Op::Ingest { .. }) {
                     continue;
                 }
                 cx.ex.apply(i as usize, &op)?;
